@@ -1,4 +1,5 @@
 import RichModel.Lemmas.SyntaxTraceback
+import RichModel.Lemmas.SyntaxHistory
 /-
 Property C17 — Syntax and tracebacks show the source line for line under the right numbers.
 
@@ -260,7 +261,36 @@ theorem traceback_marks_failing_line (cw : Char → Nat) (lineno extra : Nat) (w
     obtain ⟨rows, h1, h2⟩ := key out _ hsl (List.getElem?_eq_getElem hjo)
     exact ⟨rows, _, h1, h2, by simpa using hg⟩
 
-/-! ## Today's code violates the statements (witnesses for the two defects) -/
+/-! ## What a traceback shows depends only on the files as they are when it is rendered -/
+
+/-- History independence of `_render_stack`: for EVERY history of renders (each with its own file system and
+frames, of any length), the code each frame's Syntax is built from is the file's content at the moment of that
+render — earlier renders, and earlier contents of the same path, leave no trace.  Together with
+`traceback_marks_failing_line` (which is about that code): the marked row shows the failing line of the file as
+it is now. -/
+theorem render_history_independent (history : List ((FileId → List Char) × List FileId))
+    (cache : List (FileId × List Char)) :
+    renderHistory false cache history = history.map (fun h => h.2.map h.1) := by
+  induction history generalizing cache with
+  | nil => rfl
+  | cons h rest ih =>
+    obtain ⟨fs, frames⟩ := h
+    simp only [renderHistory, Bool.false_eq_true, if_false, List.map_cons]
+    rw [(stackCodesFrom_spec fs frames [] (cacheInv_nil fs)).1, ih]
+
+/-- Within one render the cache is transparent too: a file read once and looked up again gives the same code. -/
+theorem stack_cache_transparent (fs : FileId → List Char) (frames : List FileId) :
+    (stackCodesFrom fs [] frames).1 = frames.map fs :=
+  (stackCodesFrom_spec fs frames [] (cacheInv_nil fs)).1
+
+/-- Why the cache must not outlive a call: with a persistent cache, a file changed between two renders is
+shown with its OLD text (file 0 holds "a" first, then "\nb"; the second render still gets "a"). -/
+theorem persistent_cache_would_show_stale_code :
+    renderHistory true [] [((fun _ => "a".toList), [0]), ((fun _ => "\nb".toList), [0])]
+      = [["a".toList], ["a".toList]] := by
+  decide
+
+/-! ## The code before the two fixes violates the statements (witnesses for the two defects; variant flags = true) -/
 
 /-- The lexer every witness uses: one token holding Pygments' preprocessing (it meets the contract of its
 variant by definition). -/
@@ -353,6 +383,11 @@ example : GuideOf "    raise E".toList "│   raise E".toList := by
   rcases this with h | h
   · exact Or.inr h
   · exact Or.inl h
+
+/-- a history in which the same path changes between renders and is read twice inside one render -/
+example : renderHistory false [] [((fun _ => "a".toList), [0, 0]), ((fun _ => "\nb".toList), [0])]
+    = [["a".toList, "a".toList], ["\nb".toList]] := by
+  decide
 
 /-- a Trail with something actually missing: a source ending in a blank line -/
 example : Trail 2 ["a".toList] (splitNL "a\n\n".toList) := ⟨2, by omega, by decide⟩
